@@ -37,6 +37,8 @@ type LeakyBucketPacer struct {
 	queue *list.List
 	done  chan struct{}
 
+	closeOnce sync.Once
+
 	ssrcToWriter map[uint32]interceptor.RTPWriter
 	writerLock   sync.RWMutex
 
@@ -169,7 +171,7 @@ func (p *LeakyBucketPacer) Run() {
 
 // Close closes the LeakyBucketPacer.
 func (p *LeakyBucketPacer) Close() error {
-	close(p.done)
+	p.closeOnce.Do(func() { close(p.done) })
 
 	return nil
 }
